@@ -183,6 +183,9 @@ var catalog = []atomDef{
 	{"param", "many", true, "func $Pf(a, b, c, d, e string) string { return a + e }\n", "$Y := $Pf(\"1\", \"2\", \"3\", \"4\", $X)", ""},
 	{"param", "reassigned", true, "func $Pf(v string) string {\nw := \"w\"\nw, v = v, w\nreturn w\n}\n", "$Y := $Pf($X)", ""},
 	{"param", "two-calls", true, idDecl, "$Pa := $Pf(\"clean\")\n$Y := $Pf($X) + $Pa", ""},
+	// a parameter that is first reached from INSIDE the callee (edge s -> p) and later from the call site through a longer path
+	// (finding of builder trav: Prev-dependent expansion of ParamNode + seen dedup)
+	{"param", "inside-first", true, idDecl + "func $Pg(s string, p *string) string {\nr := *p\n*p = s\nreturn r\n}\n", "$Pt := $Pf($Pf($X))\n$Y := $Pg($X, &$Pt)", "param-reached-from-inside-first"},
 	{"neg", "other-param", false, "func $Pf(a, b string) string { return b }\n", "$Y := $Pf($X, \"clean\")", ""},
 
 	// ------------------------------------------------------------------ 1-4 result returns (rN = number of return statements)
@@ -399,6 +402,9 @@ var wraps = []wrapDef{
 	{"second-arg", "", "$S(\"tag\", $X)", "func $S(tag string, x any) { report($N, x) }\n", false},
 	{"stored-then-sink", "", "$Pv := []string{\"\"}\n$Pv[0] = $X\n$S($Pv)", "", true},
 	{"ptr-written-after", "", "$Pv := new(string)\n$Pq := $Pv\n*$Pq = $X\n$S($Pv)", "", true},
+	// builder trav's finding param-reached-from-inside-first: the sink reads *p inside F before F overwrites *p with s; p is
+	// tainted through a longer path than s, so param p is first reached from inside F (edge s -> p) and is not expanded again
+	{"param-inside-first", "func $Pi(v string) string { return v }\nfunc $PF(s string, p *string) {\n$S(*p)\n*p = s\n}\n", "$Pv := $Pi($Pi($X))\n$PF($X, &$Pv)", "", false},
 }
 
 // source shapes: how the source value is obtained.  Body declares x0.
